@@ -87,8 +87,12 @@ class OwnedClock:
     ``datetime.datetime`` before the first context is entered.  A clock value captured before the
     context is entered (at import time) is, rightly, not covered."""
 
-    def __init__(self, prefix, now):
+    def __init__(self, prefix, now, tz=None):
+        """tz: POSIX TZ string (e.g. "VRF3" = UTC-3, "VRF-5:30" = UTC+5:30) put in force for the
+        duration with time.tzset(), so that the naive local time the code may ask for
+        (datetime.now(), today(), fromtimestamp(), time.localtime()) differs from UTC."""
         self.prefix, self.now, self.saved, self.saved_modules = prefix, now, [], []
+        self.tz, self.old_tz = tz, None
 
     def _set(self, obj, name, val):
         self.saved.append((obj, name, obj.__dict__[name]))
@@ -96,6 +100,10 @@ class OwnedClock:
 
     def __enter__(self):
         now = self.now
+        if self.tz is not None:
+            self.old_tz = os.environ.get("TZ", "")
+            os.environ["TZ"] = self.tz
+            _time_module.tzset()
         fixed = fixed_datetime_class(now)
         ts = now.timestamp()
 
@@ -133,6 +141,12 @@ class OwnedClock:
         for obj, name, old in reversed(self.saved):
             setattr(obj, name, old)
         self.saved = []
+        if self.tz is not None:
+            if self.old_tz:
+                os.environ["TZ"] = self.old_tz
+            else:
+                os.environ.pop("TZ", None)
+            _time_module.tzset()
         return False
 
 
@@ -272,8 +286,8 @@ class CertImpl:
         return self.AC.HSMCertificateV2ElementX509.from_pem(
             pem, self.AC.HSMCertificateV2.ROOT_ELEMENT, self.AC.HSMCertificateV2.ROOT_ELEMENT)
 
-    def clock(self, now):
-        return OwnedClock(self.prefix, now)
+    def clock(self, now, tz=None):
+        return OwnedClock(self.prefix, now, tz)
 
     # ---- whole runs ---------------------------------------------------------------------
     def _load(self, doc, guarded):
@@ -297,11 +311,11 @@ class CertImpl:
         except Exception as e:   # noqa
             return ("raise", e)
 
-    def run_v2(self, doc, root_pem, now, guarded=False):
+    def run_v2(self, doc, root_pem, now, guarded=False, tz=None):
         ld = self._load(doc, guarded)
         if ld[0] != "ok":
             return ld
-        with self.clock(now):
+        with self.clock(now, tz):
             try:
                 root = self.root_v2(root_pem)
                 return ("result", ld[1].validate_and_get_values(root))
